@@ -86,10 +86,51 @@ def comprehension_each(it, e, g, coll, fr):
     """[x.meth() for x in <set>]: one boundary call per element, in some order.  The set of
     receivers is added to the ghost set on self; the results are some list of that length"""
     import ast
+    r = _ranked(it, e, g, coll, fr)
+    if r is not None:
+        return r
     if not (isinstance(coll, VSet) and isinstance(e.elt, ast.Call) and isinstance(e.elt.func, ast.Attribute)
             and isinstance(e.elt.func.value, ast.Name) and isinstance(g.target, ast.Name)
             and e.elt.func.value.id == g.target.id and not e.elt.args and not e.elt.keywords and not g.ifs):
         return None
+    return _each(it, e, g, coll, fr)
+
+
+def _ranked(it, e, g, coll, fr):
+    """[(xs.index(v), v) for v in <set of str>]: some list with one (rank, member) pair per member
+    (index() cannot raise: the callers build the set as a subset of xs)"""
+    import ast
+    from pyvc.interp import VSeqResult
+    if not (isinstance(coll, VSet) and coll.z is not None and coll.elem.kind == "str" and isinstance(e.elt, ast.Tuple)
+            and len(e.elt.elts) == 2 and isinstance(e.elt.elts[1], ast.Name) and isinstance(g.target, ast.Name)
+            and e.elt.elts[1].id == g.target.id and not g.ifs):
+        return None
+    ty = parse_type("tuple[int,str]")
+    r = z3.Const(it.ctx.namer("ranked"), z3.SeqSort(sort_of(ty)))
+    i = z3.Int("i!rk")
+    s = z3.Const("s!rk", StringS)
+    acc = sort_of(ty).accessor(0, 1)
+    it.ctx.assume((z3.Length(r) == 0) == z3.Not(z3.Exists([s], coll.z[s])))
+    it.ctx.assume(z3.ForAll([i], z3.Implies(z3.And(0 <= i, i < z3.Length(r)), z3.Select(coll.z, acc(r[i])))))
+    return VSeqResult(r, ty)
+
+
+def sorted_tuples(it, args, kw, fr):
+    """sorted() of a list of (int, str) pairs: same length, same members (always comparable)"""
+    v = it.force(args[0])
+    if isinstance(v, VSeq) and repr(v.elem) == repr(parse_type("tuple[int,str]")) and not kw:
+        r = z3.Const(it.ctx.namer("sorted"), v.z.sort())
+        perm = z3.Function(it.ctx.namer("sort_perm"), IntS, IntS)
+        j = z3.Int("j!so")
+        L = z3.Length(v.z)
+        it.ctx.assume(z3.Length(r) == L)
+        it.ctx.assume(z3.ForAll([j], z3.Implies(z3.And(0 <= j, j < L), z3.And(0 <= perm(j), perm(j) < L, r[j] == v.z[perm(j)]))))
+        return VSeq(r, v.elem)
+    raise OutOfSubset("sorted() of this value")
+
+
+def _each(it, e, g, coll, fr):
+    import ast
     meth = e.elt.func.attr
     if meth not in EACH or coll.z is None:
         return None
@@ -151,7 +192,14 @@ def set_model(it, args, kwargs):
                     it.raise_("TypeError", VStr("unhashable type"))
                 s = z3.Const("s!js", StringS)
                 return VSet(z3.Lambda([s], z3.Contains(v.z, z3.Unit(J.jstr(s)))), "str")
-            raise OutOfSubset("set() of a JSON str/dict")
+            s = z3.Const("s!js", StringS)
+            if isinstance(v, VStr):       # a str iterates over its characters
+                return VSet(z3.Lambda([s], z3.And(z3.Length(s) == 1, z3.Contains(v.z, s))), "str")
+            from pyvc.interp import VJsonDict
+            from pyvc.values import OJ
+            if isinstance(v, VJsonDict):  # a dict iterates over its keys
+                return VSet(z3.Lambda([s], OJ.is_present(z3.Select(J.d(v.z), s))), "str")
+            raise OutOfSubset("set() of this JSON value")
         return b_set(it, [v], kwargs, None)
     return b_set(it, args, kwargs, None)
 
@@ -197,6 +245,7 @@ def regf(exclude=()):
     em["twisted.internet.defer.DeferredList"] = lambda it, args, kwargs: VObj("DeferredB", {"fails": VBool(False)})
     em["builtins.set"] = set_model
     em["comprehension"] = comprehension_each
+    em["sorted"] = sorted_tuples
     em["yield"] = yield_inline_callbacks
     reg.func_models["wormhole/util.py:dict_to_bytes"] = lambda it, args, kwargs, fr: it.fresh("bytes", "json_bytes")
     reg.func_models[f"{CON}:build_noise"] = lambda it, args, kwargs, fr: VObj("NoiseB")
@@ -224,8 +273,27 @@ def regf(exclude=()):
         return VBool(isinstance(v, VObj) and it.reg.is_subclass(v.cls, it.concrete(clsname)))
 
     sf["is_failure_of"] = is_failure_of
-    shares = uf("shares_version", z3.SeqSort(StringS), values.J, BoolS)
-    sf["shares_version"] = lambda it, mine, theirs: VBool(shares(it.force(mine).z, to_json(it.force(theirs))))
+    def shares_version(it, mine, theirs):
+        """some str is a member of our list and of the peer's 'can-dilate' value (a list: an element; a str: one of
+        its characters; a dict: a key)"""
+        from pyvc.values import J, OJ
+        mz, tz = it.force(mine).z, to_json(it.force(theirs))
+        s = z3.Const("s!sv", StringS)
+        member = z3.Or(z3.And(J.is_jlist(tz), z3.Contains(J.l(tz), z3.Unit(J.jstr(s)))),
+                       z3.And(J.is_jstr(tz), z3.Length(s) == 1, z3.Contains(J.s(tz), s)),
+                       z3.And(J.is_jdict(tz), OJ.is_present(z3.Select(J.d(tz), s))))
+        return VBool(z3.Exists([s], z3.And(z3.Contains(mz, z3.Unit(s)), member)))
+
+    sf["shares_version"] = shares_version
+
+    def has_unhashable_member(it, v):
+        from pyvc.values import J
+        z = to_json(it.force(v))
+        i = z3.Int("i!hu")
+        return VBool(z3.And(J.is_jlist(z), z3.Exists([i], z3.And(0 <= i, i < z3.Length(J.l(z)),
+                                                                 z3.Or(J.is_jlist(J.l(z)[i]), J.is_jdict(J.l(z)[i]))))))
+
+    sf["has_unhashable_member"] = has_unhashable_member
 
     def can_dilate(it, versions):
         """their_wormhole_versions.get('can-dilate', [])"""
@@ -247,12 +315,7 @@ def regf_inline(*names):
 STOP_REQ = ["implies(in_state({m}, 'CONNECTED'), {m}._connection is not None)",
             "implies(in_state({m}, 'ABANDONING'), {m}._connection is not None and {m}._connection.disconnect_requested)"]
 
-# helpers whose contract is assumed here, not proved (see ASSUMPTIONS)
-ASSUMED = [
-    Contract(f"{MGR}:_find_shared_versions", props=[PROP], params={"my_versions": "seq[str]", "their_versions": "json"},
-             returns="opt[str]", raises={"TypeError": None},
-             ensures=[("none-iff-nothing-shared", "(result is None) == (not shares_version(my_versions, their_versions))")]),
-]
+ASSUMED = []
 
 CONTRACTS = [
     # ---------------------------------------------------------------- (a) Manager.stop
@@ -353,6 +416,12 @@ CONTRACTS = [
                   "disconnect what _pending_connections holds, and nothing else ever sees an inbound protocol before its KCM"),
 
     # ---------------------------------------------------------------- (d) incapable peer
+    Contract(f"{MGR}:_find_shared_versions", props=[PROP], params={"my_versions": "seq[str]", "their_versions": "json"},
+             returns="opt[str]",
+             raises={"TypeError": "not isinstance(their_versions, (list, str, dict)) or has_unhashable_member(their_versions)"},
+             ensures=[("none-iff-nothing-shared", "(result is None) == (not shares_version(my_versions, their_versions))"),
+                      ("a-shared-one", "implies(result is not None, result in my_versions)")],
+             note="TypeError: the peer's 'can-dilate' is not iterable, or a list with an unhashable element"),
     Contract(f"{M}.got_wormhole_versions", props=[PROP], params={"their_wormhole_versions": "json"},
              self_fields={"__state": "state", "_acceptable_versions": "seq[str]", "_dilation_version": "opt[str]",
                           "_main_channel": "obj[ObserverB]", "_my_side": "str", "_next_dilation_generation": "int",
@@ -465,7 +534,7 @@ TRUSTED = ["z3/cvc5", "pyvc semantics of the Python subset", "Automat dispatch s
            "set(json list): str members only matter for an intersection with a set of str; unhashable members raise TypeError"]
 ASSUMPTIONS = ["stop() reaches the Manager once (Terminator S_stoppingD is entered once, C08)",
                "loseConnection() is followed by connectionLost (so STOPPING is left); the eventual queue runs its callbacks",
-               "_find_shared_versions(mine, theirs) returns None iff nothing is shared: assumed contract, its body (comprehension "
-               "over a set, sorted of tuples) is outside the subset",
+               "in _find_shared_versions, my_versions.index(v) for v in the intersection never raises (v is a member); "
+               "[(rank, v) for v in set] and sorted() of (int, str) pairs are modelled as 'one pair per member' / 'a permutation'",
                "status reporting (_maybe_send_status) is dropped syntax",
                "Manager(...), Connector(...), DilatedConnectionProtocol(...), SubChannel(...) constructions are boundary events here"]
